@@ -153,6 +153,8 @@ class Check:
         for p, kv in st.items():
             plan.setdefault("stat", {}).setdefault(p, {}).update(kv)
         roots = [{"top": t, "mode": rng.choice(["bfs", "dfs"])} for t in tops]
+        if rng.random() < 0.12:
+            plan["tty"] = True  # stdout is a terminal: fselect colourises the name column (LS_COLORS-style), which must not touch the order
         tz = rng.choice(["UTC", "Europe/Berlin", "Asia/Kolkata", "America/New_York"])
         if rng.random() < 0.5:
             # modification times inside the skipped and the repeated local hour of the zone's DST switches
@@ -227,6 +229,10 @@ class Check:
                     return viols
             rows0 = r0.rows(1 + len(allk))
             rows1 = r1.rows(len(sel))
+            if case["plan"].get("tty"):
+                import re as _re
+                strip = lambda rows: [tuple(_re.sub(rb"\x1b\[[0-9;]*m", b"", c) for c in row) for row in rows]
+                rows0, rows1 = strip(rows0), strip(rows1)
             by_path = {}
             for row in rows0:
                 by_path.setdefault(row[0], []).append(row[1:])
